@@ -76,7 +76,7 @@ def gen(seed, idx, tier):
             adaptive=rnd.random() < 0.5,
             adaptive_window=2,
             save_every=k,
-            include_screening=rnd.random() < 0.1,
+            include_screening=rnd.random() < 0.3,
         )
         cur = None
         if dev["terminals"]:
@@ -148,6 +148,8 @@ def gen(seed, idx, tier):
             func = rnd.choice(WRITER_FUNCS)
         else:
             func = rnd.choice(UPDATE_FUNCS_REAL if engine_a else UPDATE_FUNCS_STUB)
+            if engine_a and scn["options"]["include_screening"] and rnd.random() < 0.6:
+                func = rnd.choice(["get_induced_vector_potential", "solve_for_observables", "adaptive_euler_step"])  # inside the screening iterations
             if kind == "enospc":
                 kind = "exc"
         at = {"point": "line", "func": func, "frac": rnd.random(), "stage": stage}
@@ -212,6 +214,9 @@ def oracle(scn, sim, h, tw):
     if fi is not None and fault["at"]["point"] == "line":
         where0["func"] = fault["at"]["func"]
 
+    for st_, step_, name_ in sim.alias_violations[:1]:
+        # the runner would save exactly this array if the step were abandoned now
+        V.append(Violation("state-mutated-in-place", f"update {st_}{step_} modified the array of '{name_}' held by the runner in place: a stop inside this step records a state that was never accepted", quantity=name_))
     # (5) liveness of the exclusive-create loop is enforced by the seam counter (HarnessError)
     # (1) handles
     if h.h5_open_after != h.h5_open_before:
